@@ -9,6 +9,7 @@ import (
 	"os"
 	"path/filepath"
 	"sort"
+	"strings"
 	"testing"
 
 	"github.com/ontio/ontology-crypto/keypair"
@@ -134,6 +135,12 @@ func (w *world) name(a common.Address) string {
 func (w *world) nodeName(pub string) string {
 	if n, ok := w.nodeByPub[pub]; ok {
 		return n.name
+	}
+	if n, ok := w.nodeByPub[canon(pub)]; ok { // another spelling of a cast key: ^ all upper-case, ~ mixed case
+		if pub == strings.ToUpper(pub) {
+			return n.name + "^"
+		}
+		return n.name + "~"
 	}
 	if len(pub) > 10 {
 		return "pk:" + pub[:10] + "…"
